@@ -16,6 +16,7 @@ fn main() {
     match argv[1].as_str() {
         "forget" => drivers::forget::run(&a),
         "probe" => drivers::probe::run(&a),
+        "damage" => drivers::damage::run(&a),
         "restore" => drivers::restore::run(&a),
         "roundtrip" => drivers::roundtrip::run(&a),
         "sched" => drivers::sched::run(&a),
